@@ -48,11 +48,19 @@ def build(kind):
 
         @router.method
         def add(a: abi.Uint64, b: abi.Uint64, *, output: abi.Uint64):
-            return output.set(a.get() + b.get())
+            return output.set(pt.Divw(pt.Int(0), a.get(), pt.Int(1)) + b.get())          # divw: the version-5 attempt (failr) ends in an error
 
         @router.method
         def greet(name: abi.String, *, output: abi.String):
             return output.set(pt.Concat(pt.Bytes("hi "), name.get()))
+        return router
+    if kind == "router1":
+        router = pt.Router("hist1", pt.BareCallActions(no_op=pt.OnCompleteAction.create_only(pt.Approve())), clear_state=pt.Approve())
+
+        @router.method
+        def scale(a: abi.Uint64, b: abi.Uint64, *, output: abi.Uint64):
+            tmp = abi.Uint64()
+            return pt.Seq(tmp.set(pt.Divw(pt.Int(0), a.get(), b.get())), output.set(tmp.get() + pt.Int(1)))
         return router
     if kind == "itxn":
         a = abi.Uint64()
@@ -76,7 +84,7 @@ def build(kind):
 
 def compile_kind(obj, kind, opt):
     pt = _pt()
-    if kind == "router":
+    if kind in ("router", "router1"):
         ap, cl, contract = obj.compile_program(version=int(opt[1:]))
         return ap + "\n----\n" + cl + "\n----\n" + json.dumps(contract.dictify(), sort_keys=True)
     v = {"v6": 6, "v8": 8, "v9": 9, "v8nofp": 8}[opt]
@@ -92,23 +100,29 @@ def run_history(actions):
     import replay
     pt = replay.pt
     from pyteal.ast.subroutine import SubroutineEval
+    from pyteal.ast.scratch import ScratchSlot
     inst = {}
     out = []
     for a in actions:
         act, p, o = a.split(":")
         ev = {"act": act, "p": p, "o": o, "cls": "", "text": ""}
+        ctr = ScratchSlot.nextSlotId
         try:
             if act == "build":
                 inst[p] = build(p)
             elif act == "compile":
                 ev["text"] = compile_kind(inst[p], p, o)
                 ev["cls"] = "teal"
-                again = compile_kind(inst[p], p, o)          # compiling the same object again is part of every history
-                if again != ev["text"]:
-                    ev["cls"] = "teal-differs-on-recompile"
+                second = dict(ev, text="")                  # compiling the same object again is part of every history: a second event
             elif act == "fail":
                 try:
                     pt.compileTeal(build(p), pt.Mode.Application, version=FAIL_AT[p])
+                    ev["cls"] = "teal"
+                except replay.PYTEAL_ERRORS:
+                    ev["cls"] = "pyteal"
+            elif act == "failr":
+                try:
+                    inst[p].compile_program(version=int(o[1:]))
                     ev["cls"] = "teal"
                 except replay.PYTEAL_ERRORS:
                     ev["cls"] = "pyteal"
@@ -123,7 +137,20 @@ def run_history(actions):
         except Exception as e:  # noqa: BLE001
             ev["cls"] = "crash:" + type(e).__name__
         ev["marker_none"] = 1 if SubroutineEval._current_proto is None else 0
+        ev["adv"] = 1 if ScratchSlot.nextSlotId > ctr else 0
         out.append(ev)
+        if act == "compile" and ev["cls"] == "teal":
+            ctr = ScratchSlot.nextSlotId
+            try:
+                second["text"] = compile_kind(inst[p], p, o)
+                second["cls"] = "teal"
+            except replay.PYTEAL_ERRORS as e:
+                second["cls"] = "pyteal-error:" + type(e).__name__
+            except Exception as e:  # noqa: BLE001
+                second["cls"] = "crash:" + type(e).__name__
+            second["marker_none"] = 1 if SubroutineEval._current_proto is None else 0
+            second["adv"] = 1 if ScratchSlot.nextSlotId > ctr else 0
+            out.append(second)
     return out
 
 
